@@ -382,6 +382,13 @@ impl LogState {
         }
         if !line_head.is_empty() {
             // partial line never got terminated
+            if interrupted != 0 && auto_bool_arg(&matches, "details").unwrap_or(true) {
+                // Like a complete line, it needs the marker that says whose
+                // output this is after another target's log was shown.
+                let d = logs::reduce_depth();
+                logs::meta("resumed", t.as_str(), None);
+                logs::set_depth(d);
+            }
             print!("{}", line_head);
         }
         if t.as_str() != "-" {
